@@ -66,8 +66,15 @@ def run_config(P: Dict[str, Any], args: List[Any], cfg: Dict[str, Any]) -> Tuple
         ex = sched.Exec(cfg.get("mode", "free"), choices=cfg.get("choices", ()), sleeps=cfg.get("sleeps"))
         a = [dec(x) for x in args]
         try:
+            target: Any = b.dag
+            if cfg.get("derive") == "deepcopy":
+                import copy as _copy
+
+                target = _copy.deepcopy(b.dag)  # a deep copy computes what the original computes
+            elif cfg.get("derive") == "executor":
+                target = b.dag.executor()  # dag.executor()(*args) instead of dag(*args)
             with ex:
-                val = asyncio.run(b.dag(*a)) if cfg.get("async") else b.dag(*a)
+                val = asyncio.run(target(*a)) if cfg.get("async") else target(*a)
             return val, None, ex, b
         except BaseException as e:  # noqa: BLE001
             if isinstance(e, KeyboardInterrupt):
@@ -118,7 +125,8 @@ def configs(draw: Any, n: int = 3, sites: Optional[List[str]] = None, modes: Any
         c: Dict[str, Any] = {"async": draw(st.booleans()), "mc": draw(st.integers(1, 5)),
                              "mode": draw(st.sampled_from(list(modes))),
                              "via": draw(st.sampled_from(["decorator", "decorator", "dict", "yaml", "json"])),
-                             "debug": draw(st.booleans()), "build_debug": draw(st.booleans())}
+                             "debug": draw(st.booleans()), "build_debug": draw(st.booleans()),
+                             "derive": draw(st.sampled_from([None, None, None, "deepcopy", "executor"]))}
         if c["mode"] == "ctl":
             c["choices"] = draw(st.lists(st.integers(0, 2**16), max_size=10))
         elif sites:
